@@ -156,6 +156,21 @@ impl ResponseCache {
     }
 }
 
+/// Verification hooks: public access to the crate-private `clear` / `clear_query`.
+#[cfg(hickory_dns_verif)]
+#[doc(hidden)]
+impl ResponseCache {
+    /// see `ResponseCache::clear`
+    pub fn verif_clear(&self) {
+        self.clear()
+    }
+
+    /// see `ResponseCache::clear_query`
+    pub fn verif_clear_query(&self, query: &Query) {
+        self.clear_query(query)
+    }
+}
+
 /// An entry in the response cache.
 ///
 /// This contains the response itself (or an error), the time it was received, and the time at which
